@@ -16,11 +16,19 @@ import (
 )
 
 type Thread struct {
-	ID     int
-	resume chan struct{}
-	pend   *Op
-	done   bool
+	ID      int
+	resume  chan struct{}
+	pend    *Op
+	done    bool
+	demoted bool // starved by an explorer decision: runs only when no other thread can
 }
+
+// Demotion adds one more alternative to every thread decision: "starve the default
+// thread" - it is scheduled from then on only when no other thread is enabled. With
+// ascending-id defaults, keeping a low-numbered thread from running while several others
+// make progress would otherwise cost one deviation per scheduling opportunity; as one
+// decision it is within a deviation bound of 1. Set before Run; off by default.
+var Demotion bool
 
 // Op is a pending operation of a parked thread.
 type Op struct {
@@ -143,8 +151,8 @@ func (s *Sched) loop() {
 		// ids; threads that are merely polling go last
 		sort.SliceStable(en, func(i, j int) bool {
 			a, b := en[i], en[j]
-			if a.pend.LowPrio != b.pend.LowPrio {
-				return !a.pend.LowPrio
+			if (a.pend.LowPrio || a.demoted) != (b.pend.LowPrio || b.demoted) {
+				return !(a.pend.LowPrio || a.demoted)
 			}
 			if (a == s.cur) != (b == s.cur) {
 				return a == s.cur
@@ -158,12 +166,24 @@ func (s *Sched) loop() {
 				ids[i] = t.ID
 			}
 			runEn := en[0] == s.cur
-			pick = s.choose("thread", len(en), "")
-			if pick < 0 || pick >= len(en) {
-				panic(fmt.Sprintf("vsched: choice %d out of range %d", pick, len(en)))
+			n := len(en)
+			canDemote := Demotion && !en[0].demoted && !en[0].pend.LowPrio
+			if canDemote {
+				n++
+				ids = append(ids, -1-en[0].ID) // pseudo option: starve T<id>, run the next thread
 			}
-			s.Points = append(s.Points, Point{Kind: "thread", Enabled: ids, Chosen: pick, RunningEnabled: runEn,
-				Desc: fmt.Sprintf("T%d@%s(%s)", en[pick].ID, en[pick].pend.Kind, en[pick].pend.Obj)})
+			pick = s.choose("thread", n, "")
+			if pick < 0 || pick >= n {
+				panic(fmt.Sprintf("vsched: choice %d out of range %d", pick, n))
+			}
+			chosen, desc := pick, ""
+			if canDemote && pick == n-1 {
+				en[0].demoted = true
+				desc = fmt.Sprintf("starve T%d; ", en[0].ID)
+				pick = 1
+			}
+			s.Points = append(s.Points, Point{Kind: "thread", Enabled: ids, Chosen: chosen, RunningEnabled: runEn,
+				Desc: desc + fmt.Sprintf("T%d@%s(%s)", en[pick].ID, en[pick].pend.Kind, en[pick].pend.Obj)})
 		}
 		s.cur = en[pick]
 		s.cur.resume <- struct{}{}
